@@ -14,6 +14,7 @@
 package io
 
 import (
+	"fmt"
 	"reflect"
 	"strconv"
 	"unsafe"
@@ -136,6 +137,21 @@ func (valdec mapDecoder) decodeListAsMap(dec *Decoder, p interface{}, tag byte) 
 	dec.Skip()
 }
 
+// setEntry stores an entry whose key was decoded from the wire. A key type
+// that can hold an interface value may have received a list, map or bytes
+// item, which cannot be hashed: that is an error of the input, not a panic.
+func (valdec mapDecoder) setEntry(dec *Decoder, mp, kp, vp unsafe.Pointer) {
+	switch valdec.kt.Kind() {
+	case reflect.Interface, reflect.Struct, reflect.Array:
+		defer func() {
+			if e := recover(); e != nil && dec.Error == nil {
+				dec.Error = DecodeError(fmt.Sprintf("hprose/io: invalid map key: %v", e))
+			}
+		}()
+	}
+	valdec.t.UnsafeSetIndex(mp, kp, vp)
+}
+
 func (valdec mapDecoder) decodeMap(dec *Decoder, p interface{}) {
 	mp := reflect2.PtrOf(p)
 	count := dec.ReadCount()
@@ -148,7 +164,7 @@ func (valdec mapDecoder) decodeMap(dec *Decoder, p interface{}) {
 		vp := valdec.vt.UnsafeNew()
 		valdec.decodeKey(dec, kt, kp)
 		valdec.decodeValue(dec, vt, vp)
-		valdec.t.UnsafeSetIndex(mp, kp, vp)
+		valdec.setEntry(dec, mp, kp, vp)
 	}
 	dec.Skip()
 }
